@@ -46,7 +46,7 @@ PROBLEMS = {
     # (normalised to "Z0" / "S0", "S1" by the reader; the number 0 is a label, not an empty cell -- seeded change C16g)
     2: dict(streams=[S("Z0", "S0", 250, 50, 400), S("Z0", "S1", 120, 30, 90, 0.0)], utilities=[], options={}),
     3: dict(streams=[S("Plant/U1", "F1", 20, 180, 3200), S("Plant/U1", "F2", 150, 150, 250), S("Plant/U2", "P1", 250, 40, 3150, 7.5),
-                     S("Yard", "P2", 200, 80, 1800)],
+                     S("None", "NA", 200, 80, 1800)],       # text that spreadsheet tools like to read as "missing": a zone called None, a stream called NA
             utilities=[U("HPS", "Hot", 260, 260), U("HW", "Hot", 90, 70)], options={}),
 }
 
